@@ -1,6 +1,9 @@
 mod c01;
+mod c02;
+mod extract;
 mod c03;
 mod c14;
+mod fault;
 mod plonkrun;
 mod rec;
 mod shapes;
@@ -22,6 +25,7 @@ fn main() {
     let rest = &args[2..];
     let code = match args[1].as_str() {
         "c01" => c01::main(rest),
+        "c02" => c02::main(rest),
         "c03" => c03::main(rest),
         "c14" => c14::main(rest),
         "randshape" => {
